@@ -684,6 +684,33 @@ func (e *Env) call(x *Expr) Val {
 	case "prefixof":
 		// prefixof(p, s): sequence p is a prefix of sequence s (native seq.prefixof)
 		return Val{T: "(seq.prefixof " + e.asSeq(e.tr(x.Args[0])) + " " + e.asSeq(e.tr(x.Args[1])) + ")", Sort: "Bool"}
+	case "ifaceof":
+		// ifaceof(v, "int32"): the interface value that boxing v (of the named basic type) yields
+		if len(x.Args) != 2 || x.Args[1].Op != "str" {
+			fail("usage: ifaceof(<value>, \"<basic type>\")")
+		}
+		var bt types.Type
+		for _, t := range types.Typ {
+			if t.Name() == x.Args[1].Str {
+				bt = t
+			}
+		}
+		if bt == nil {
+			fail("ifaceof: unknown basic type %s", x.Args[1].Str)
+		}
+		v := e.rv(e.tr(x.Args[0]))
+		box, unbox := e.g.boxFns(v.Sort)
+		if !strings.Contains(v.T, "q!") && !strings.Contains(v.T, "dummy!") && e.g.lines != nil {
+			e.g.assume(fmt.Sprintf("(= (%s (%s %s)) %s)", unbox, box, v.T, v.T))
+		}
+		return Val{T: fmt.Sprintf("(mkiface %d (%s %s))", e.u().typeID(bt), box, v.T), Sort: "Iface"}
+	case "ival":
+		// ival(i): the pointer-like payload of an interface value (channel, pointer, map)
+		b := e.rv(e.tr(x.Args[0]))
+		if b.Sort != "Iface" {
+			fail("ival of non-interface")
+		}
+		return Val{T: "(i_val " + b.T + ")", Sort: "Loc"}
 	case "contains":
 		// contains(s, t): t occurs in s as a contiguous subsequence
 		return Val{T: "(seq.contains " + e.asSeq(e.tr(x.Args[0])) + " " + e.asSeq(e.tr(x.Args[1])) + ")", Sort: "Bool"}
